@@ -127,16 +127,15 @@ Example ex_two_holes_valid : valid_geom ex_two_holes = true /\ simple_geom ex_tw
 Proof. vm_compute. auto. Qed.
 (* a hole chain from edge to edge disconnects the interior: rule 4 at the four touch points *)
 Definition ex_chain : geom := GPoly (sq 0 0 8 8) [[(0, 4); (2, 2); (4, 4); (2, 6); (0, 4)]; [(4, 4); (6, 2); (8, 4); (6, 6); (4, 4)]].
-Example ex_chain_detail : valid_detail false ex_chain = Some (RDisconnectedInterior, [(0, 4, 1); (4, 4, 1); (8, 4, 1)] ++ [(0, 4, 1); (4, 4, 1); (4, 4, 1); (8, 4, 1)])
-                          \/ valid_geom ex_chain = false.
-Proof. right. vm_compute. reflexivity. Qed.
+Example ex_chain_invalid : valid_geom ex_chain = false /\ valid_flag true ex_chain = false.
+Proof. vm_compute. auto. Qed.
 Example ex_chain_on_geometry : forall q, In q (rule_set false RDisconnectedInterior ex_chain) -> loc_h ex_chain q = Boundary.
-Proof. vm_compute. intros q H. repeat (destruct H as [<- | H]; [reflexivity|]). destruct H. Qed.
+Proof. intros q H. vm_compute in H. repeat (destruct H as [<- | H]; [vm_compute; reflexivity|]). destruct H. Qed.
 Example ex_chain_rule_nonempty : rule_set false RDisconnectedInterior ex_chain <> [].
 Proof. vm_compute. discriminate. Qed.
 (* a bow-tie: rule 5 at the exact rational crossing point (5,5) = (1000/200, 1000/200) *)
 Definition ex_bowtie : geom := GPoly [(0, 0); (10, 10); (10, 0); (0, 10); (0, 0)] [].
-Example ex_bowtie_detail : valid_detail false ex_bowtie = Some (RSelfIntersection, [(1000, 1000, 200); (1000, 1000, 200)]).
+Example ex_bowtie_detail : valid_detail false ex_bowtie = Some (RSelfIntersection, [(1000, 1000, 200)]).
 Proof. vm_compute. reflexivity. Qed.
 (* an inverted shell (the ring touches itself and encloses a hole): invalid under OGC by rule 6 only, valid with the flag;
    the same ring with the inner loop on the interior side (a figure 8) is invalid under both *)
@@ -163,7 +162,7 @@ Example ex_simple :
   /\ simple_geom (GLine [(0, 0); (8, 0); (8, 4); (4, 4); (4, 0)]) = false
   /\ simple_geom (GMLine [[(0, 0); (4, 4)]; [(4, 4); (8, 0)]; [(4, 4); (4, 9)]]) = true
   /\ simple_geom (GMLine [sq 0 0 4 4; [(0, 0); (-3, -3)]]) = false
-  /\ nonsimple_pts (GLine [(0, 0); (4, 4); (4, 0); (0, 4)]) = [(32, 32, 16)].
+  /\ nonsimple_pts (GLine [(0, 0); (4, 4); (4, 0); (0, 4)]) = [(64, 64, 32)].
 Proof. vm_compute. repeat split; reflexivity. Qed.
 (* invariance, instantiated: the bow-tie's crossing point moves with the geometry *)
 Example ex_bowtie_translated :
